@@ -11,7 +11,7 @@ cls <tag> <global 0|1> <sncache 0|1> <nfields> <nameIdx> <single ref idxs> <coll
 add|upd <id> <tag> <f>=<val> …        del|dis <id> <tag>        delist <name>
 add <id> <tag> len=<k> <f>=<val> …    (data tuple cut to its first k slots)
 set <id> <f> <val>                    unset <id> <f>
-create <id> <tag> <f>=<val> …         alter <id> <f>=<val> …    cset <id> <f> <val>   cunset <id> <f>   drop <id>
+create <id> <tag> <f>=<val> …         alter <id> <f>=<val> …    cset <id> <f> <val>   cunset <id> <f>   drop <id>   gc <id>
 refs <id>                             (query: get_referrers)
 quiet                                 (answers without the state dump until the next reset)
 v0                                    (trace validation: the current state becomes version 0)
@@ -213,6 +213,10 @@ def stepLine (d : DSt) (line : String) : DSt × String :=
   | ["delist", n] =>
     match parseName n with
     | some n => answer d (delist d.st n)
+    | none => bad
+  | ["gc", id] =>
+    match id.toNat? with
+    | some id => answer d (runCmd d.st (.dropUnused id))
     | none => bad
   | ["drop", id] =>
     match id.toNat? with
